@@ -82,6 +82,11 @@ impl FromStr for Drivers {
 
 /// Load and configure the given driver.
 pub fn load_driver(driver: Drivers, config: &Arc<Config>) -> Result<Box<dyn CopyDriver + Send>> {
+    // A copy in blocks of nothing never ends.
+    if config.block_size == 0 {
+        return Err(XcpError::InvalidArguments("block_size must be greater than zero.".to_string()).into());
+    }
+
     let driver_impl: Box<dyn CopyDriver + Send> = match driver {
         Drivers::ParFile => Box::new(parfile::Driver::new(config.clone())?),
         #[cfg(feature = "parblock")]
